@@ -8,7 +8,6 @@ package multiplex
 import (
 	"fmt"
 	"io"
-	"runtime"
 	"strings"
 	"testing"
 	"time"
@@ -18,11 +17,6 @@ import (
 	log "github.com/sirupsen/logrus"
 )
 
-func c12Dump() string {
-	buf := make([]byte, 1<<22)
-	n := runtime.Stack(buf, true)
-	return string(buf[:n])
-}
 
 func c12Evidence(dump string) (sendUnderLock, closerOnMutex bool) {
 	for _, g := range strings.Split(dump, "\n\n") {
@@ -189,10 +183,10 @@ func TestVerifC12StalledConsumer(t *testing.T) {
 		verdict := ""
 		select {
 		case <-rd:
-		case <-time.After(5 * time.Second):
+		case <-time.After(10 * time.Second):
 			verdict = "the reader parked on the other stream was not woken"
 		}
-		deadline := time.Now().Add(5 * time.Second)
+		deadline := time.Now().Add(10 * time.Second)
 		for time.Now().Before(deadline) && !(s.IsClosed() && c.IsClosed() && links[0].ClosedBy(0) && links[0].ClosedBy(1)) {
 			time.Sleep(10 * time.Millisecond)
 		}
@@ -204,7 +198,15 @@ func TestVerifC12StalledConsumer(t *testing.T) {
 		}
 		res.Count(fmt.Sprintf("stalled-%dMiB", mib), true)
 		if verdict != "" {
-			res.Violate("teardown-stuck:stalled-consumer", fmt.Sprintf("%d MiB unread on one stream, then a connection ended: %s after 5 s", mib, verdict), map[string]any{"unread_mib": mib})
+			// evidence: some goroutine of the teardown is parked on a lock or in a buffer wait
+			dump := c12Dump()
+			ev := strings.Contains(dump, "closeStreams") || strings.Contains(dump, "streamBuffer).Close") || strings.Contains(dump, "passiveClose")
+			if ev {
+				res.Violate("teardown-stuck:stalled-consumer", fmt.Sprintf("%d MiB unread on one stream, then a connection ended: %s after 10 s; the teardown is parked behind the stalled stream's buffer", mib, verdict), map[string]any{"unread_mib": mib})
+			} else {
+				res.Note("stalled-consumer round %d: %s, but no teardown goroutine is visibly parked: not judged", round, verdict)
+				res.Stat("inconclusive", 1)
+			}
 		}
 		if round == 0 {
 			res.Sample(map[string]any{"unread_mib": mib, "torn_down": verdict == ""}, 1)
